@@ -9,7 +9,7 @@ AXREAL_DIR = os.path.join(core.VERIF, "replay/axreal")
 def parse_playback(out):
     """-> {check description: [[bytes], ...]}"""
     res = {}
-    for m in re.finditer(r"/// Check for `(\w+)`: \"([^\"]*)\"\s*\n(.*?)kani::concrete_playback_run", out, re.S):
+    for m in re.finditer(r"/// Check for `(\w+)`: \"+([^\"]*)\"+\s*\n(.*?)kani::concrete_playback_run", out, re.S):
         desc = m.group(2)
         vals = []
         for v in re.finditer(r"vec!\[([0-9,\s]*)\],", m.group(3)):
@@ -152,6 +152,128 @@ def replay_l2_obligation(o, tier="quick"):
         else:
             payload["replay_note"] = ("the real crate agrees with the oracle on this input: the failed obligation is an artefact of the contract model "
                                       "(contract-model-mismatch) or concerns an aspect only visible at the model level (trace/call-stack requests)")
+        return payload
+    finally:
+        shutil.rmtree(wd, ignore_errors=True)
+
+
+# ------------------------------------------------------------------------------------------------ generic native replay (L0 / L0m / L3 units)
+ASSERT_SHADOW = """
+// native replay: a failing obligation is recorded instead of aborting
+#[allow(unused_macros)]
+macro_rules! assert {
+    ($c:expr, $l:literal) => { if !($c) { if $l.starts_with("OBL|") { kani::record_failure($l); } else { panic!($l); } } };
+    ($c:expr, $l:literal, $($a:tt)+) => { if !($c) { panic!($l, $($a)+); } };
+    ($c:expr) => { if !($c) { panic!("assertion failed"); } };
+}
+"""
+
+
+def _builder(o):
+    unit, hname = o["unit"], o["harness"]
+    if unit == "kani_l0":
+        hs = [h for h in K.plan_l0() if h["name"] == hname]
+        return hs, (lambda d, hh: K.build_l0(d, hh)), "l0", "axl0", "gen_l0"
+    if unit == "kani_l0m":
+        hs = [h for h in K.plan_l0m() if h["name"] == hname]
+        return hs, (lambda d, hh: K.build_l0m(d, hh)), "l0m", "axl0m", "gen_l0m"
+    if unit == "kani_l3":
+        hs = [h for h in K.plan_l3() if h["name"] == hname]
+        v = hs[0]["variant"] if hs else "step"
+        return hs, (lambda d, hh, v=v: K.build_l3(d, hh, v)), "l3" + v, "axl3", "gen_l3"
+    if unit == "kani_stk":
+        hs = [h for h in K.plan_stk() if h["name"] == hname]
+        return hs, (lambda d, hh: K.build_stk(d, hh)), "stk", "axstk", "gen_stk"
+    return [], None, None, None, None
+
+
+def replay_generic_obligation(o):
+    """Kani counterexample of an L0 / L0m / L3 obligation, re-executed natively on the same extracted real text."""
+    hs, build, kind, crate, genmod = _builder(o)
+    if not hs:
+        return dict(replay_note="harness %s not found" % o.get("harness"))
+    h = hs[0]
+    hname = h["name"]
+    label = "OBL|" + "|".join(o["id"].split("|")[2:])
+    wd = tempfile.mkdtemp(prefix="axcex.", dir="/var/tmp")
+    try:
+        kd = os.path.join(wd, "kani")
+        build(kd, [h])
+        tmpl = R.template_target(kind, lambda d: build(d, []))
+        subprocess.run(["cp", "-al", tmpl, os.path.join(kd, "target")], check=True)
+        r = subprocess.run(["timeout", "1500", "cargo", "kani", "--harness", hname, "-Z", "concrete-playback", "--concrete-playback=print",
+                            "--no-assertion-reach-checks", "--no-memory-safety-checks", "--output-format", "terse"],
+                           cwd=kd, env=R.env(), capture_output=True, text=True)
+        pb = parse_playback(r.stdout)
+        want = label if label in pb else None
+        if want is None:
+            cands = [k for k in pb if not k.startswith("COVER|")]
+            if o["id"].endswith("no-panic"):
+                cands = [k for k in cands if not k.startswith("OBL|")] or cands
+            want = cands[0] if cands else None
+        if want is None:
+            return dict(replay_note="Kani produced no concrete playback for this harness", kani_tail=r.stdout[-800:])
+        vals = pb[want]
+        # native twin of the same crate
+        nd = os.path.join(wd, "native")
+        build(nd, [h])
+        src = os.path.join(nd, "src")
+        lib = open(os.path.join(src, "lib.rs")).read().replace("#[cfg(kani)] ", "")
+        lib = lib.replace(K.FORMAT_SHADOW, K.FORMAT_SHADOW + ASSERT_SHADOW)
+        open(os.path.join(src, "lib.rs"), "w").write(lib)
+        for root, _d, files in os.walk(src):
+            for f in files:
+                if f.endswith(".rs"):
+                    p = os.path.join(root, f)
+                    t = open(p).read()
+                    t2 = re.sub(r"^#\[kani::(proof|unwind\(\d+\))\]\n", "", t, flags=re.M).replace("#[cfg(kani)]\npub mod l0m_harness", "pub mod l0m_harness")
+                    if f.startswith("gen_"):
+                        t2 = re.sub(r"^fn (\w+)\(\)", r"pub fn \1()", t2, flags=re.M)
+                    if t2 != t:
+                        open(p, "w").write(t2)
+        os.makedirs(os.path.join(src, "bin"), exist_ok=True)
+        open(os.path.join(src, "bin/axplay.rs"), "w").write("""fn main() {
+    let path = std::env::args().nth(1).expect("values file");
+    let txt = std::fs::read_to_string(path).unwrap();
+    let mut vals: Vec<Vec<u8>> = Vec::new();
+    for part in txt.split('[').skip(2) {
+        let inner = part.split(']').next().unwrap();
+        vals.push(inner.split(',').filter(|s| !s.trim().is_empty()).map(|s| s.trim().parse::<u8>().unwrap()).collect());
+    }
+    kani::load(vals);
+    std::panic::set_hook(Box::new(|_| {}));
+    let r = std::panic::catch_unwind(|| %s::harness::%s::%s());
+    let panic_msg = match &r {
+        Ok(()) => String::new(),
+        Err(p) => p.downcast_ref::<String>().cloned().or_else(|| p.downcast_ref::<&str>().map(|s| s.to_string())).unwrap_or_else(|| "panic".to_string()),
+    };
+    let failed = kani::take_failures();
+    let labels: Vec<String> = failed.iter().map(|l| format!("\\"{}\\"", l)).collect();
+    println!("{{\\"native_failed_labels\\":[{}],\\"panic\\":{:?},\\"assume_violated\\":{}}}", labels.join(","), panic_msg, kani::assume_violated());
+}
+""" % (crate, genmod, hname))
+        toml = open(os.path.join(nd, "Cargo.toml")).read()
+        toml = toml.replace("[lints.rust]", "kani = { path = \"%s\" }\n\n[[bin]]\nname = \"axplay\"\npath = \"src/bin/axplay.rs\"\n\n[lints.rust]" % os.path.join(core.VERIF, "replay/kani_shim"))
+        open(os.path.join(nd, "Cargo.toml"), "w").write(toml)
+        e = R.env()
+        e["CARGO_TARGET_DIR"] = os.path.join(R.CACHE, "axplay_target_" + kind)
+        b = subprocess.run(["cargo", "build", "--offline"], cwd=nd, env=e, capture_output=True, text=True)
+        if b.returncode != 0:
+            return dict(replay_note="native twin of the harness crate did not build", detail=b.stderr[-1200:], kani_check=want, kani_values=vals)
+        vf = os.path.join(wd, "vals.json")
+        json.dump(vals, open(vf, "w"))
+        p = subprocess.run([os.path.join(e["CARGO_TARGET_DIR"], "debug/axplay"), vf], capture_output=True, text=True, timeout=120)
+        try:
+            nat = json.loads(p.stdout.strip().split("\n")[-1])
+        except Exception:
+            return dict(replay_note="native run produced no result", detail=(p.stdout + p.stderr)[-800:], kani_check=want, kani_values=vals)
+        payload = dict(kani_check=want, kani_values=vals, native_replay=nat,
+                       replay_kind="the counterexample's values were fed to the same harness compiled natively: the real extracted text of /repo (same files, same cuts) executes on them")
+        reproduced = (label[4:] in [l[4:] for l in nat.get("native_failed_labels", [])]) or bool(nat.get("panic")) or (o["id"].endswith("no-panic") and nat.get("panic"))
+        if reproduced and not nat.get("assume_violated"):
+            payload["failing_input"] = dict(harness=hname, values_of_kani_any_in_call_order=vals, observed=nat)
+        else:
+            payload["replay_note"] = "the native run of the harness did not reproduce the failure with the counterexample's values"
         return payload
     finally:
         shutil.rmtree(wd, ignore_errors=True)
